@@ -97,15 +97,15 @@ type vMis struct {
 }
 
 type vResult struct {
-	I     int    `json:"i"`
-	R     string `json:"r"` // ok | mismatch | deviation | drift | inconclusive
-	Bad   *vMis  `json:"bad,omitempty"`   // first contradiction of the property not explained by the as-written model
-	Dev   *vMis  `json:"dev,omitempty"`   // first contradiction of the property that the as-written model predicts
-	NDev  int    `json:"ndev,omitempty"`  // number of such requests in this history
-	Drift *vMis  `json:"drift,omitempty"` // first disagreement on something pinned beyond the property
-	Note  string `json:"note,omitempty"`
-	NEnf  int    `json:"nenf"`
-	NAllow int   `json:"nallow"`
+	I      int    `json:"i"`
+	R      string `json:"r"`               // ok | mismatch | deviation | drift | inconclusive
+	Bad    *vMis  `json:"bad,omitempty"`   // first contradiction of the property not explained by the as-written model
+	Dev    *vMis  `json:"dev,omitempty"`   // first contradiction of the property that the as-written model predicts
+	NDev   int    `json:"ndev,omitempty"`  // number of such requests in this history
+	Drift  *vMis  `json:"drift,omitempty"` // first disagreement on something pinned beyond the property
+	Note   string `json:"note,omitempty"`
+	NEnf   int    `json:"nenf"`
+	NAllow int    `json:"nallow"`
 }
 
 // ---------------------------------------------------------------- environment
